@@ -30,6 +30,9 @@ const (
 	// OpYield has no effect on state: it yields the processor Val[0] times so that
 	// generated blocks explore more interleavings of concurrently running transactions.
 	OpYield uint8 = 4
+	// OpWho has no effect on state: it appends a record with the actor's address to the
+	// output, so a result shows on whose behalf the action ran (actor and sponsor may differ)
+	OpWho uint8 = 5
 )
 
 var ErrProgFail = errors.New("prog action: fail op")
@@ -193,7 +196,7 @@ func UnmarshalProgAction(b []byte) (chain.Action, error) {
 	no := int(r.u16())
 	for i := 0; i < no && r.err == nil; i++ {
 		kind := r.u8()
-		if kind > OpYield {
+		if kind > OpWho {
 			return nil, errors.New("prog action: bad op kind")
 		}
 		kl := int(r.u16())
@@ -206,8 +209,8 @@ func UnmarshalProgAction(b []byte) (chain.Action, error) {
 		if kind == OpYield && (vl != 1 || kl != 0) {
 			return nil, errors.New("prog action: malformed yield op")
 		}
-		if kind == OpFail && kl != 0 {
-			return nil, errors.New("prog action: key on fail op")
+		if (kind == OpFail || kind == OpWho) && kl != 0 {
+			return nil, errors.New("prog action: key on fail/who op")
 		}
 		a.Ops = append(a.Ops, Op{Kind: kind, Key: k, Val: v})
 	}
@@ -230,7 +233,7 @@ func ReadRecord(val []byte, found bool) []byte {
 	return append(out, val...)
 }
 
-func (a *ProgAction) Execute(ctx context.Context, _ chain.Rules, mu state.Mutable, _ int64, _ codec.Address, _ ids.ID) ([]byte, error) {
+func (a *ProgAction) Execute(ctx context.Context, _ chain.Rules, mu state.Mutable, _ int64, actor codec.Address, _ ids.ID) ([]byte, error) {
 	out := []byte{}
 	for i, o := range a.Ops {
 		switch o.Kind {
@@ -254,6 +257,8 @@ func (a *ProgAction) Execute(ctx context.Context, _ chain.Rules, mu state.Mutabl
 			}
 		case OpFail:
 			return nil, ErrProgFail
+		case OpWho:
+			out = append(out, WhoRecord(actor)...)
 		case OpYield:
 			n := 1
 			if len(o.Val) == 1 {
@@ -265,6 +270,11 @@ func (a *ProgAction) Execute(ctx context.Context, _ chain.Rules, mu state.Mutabl
 		}
 	}
 	return out, nil
+}
+
+// WhoRecord is what an OpWho op appends to the output.
+func WhoRecord(actor codec.Address) []byte {
+	return append([]byte{0xA7}, actor[:]...)
 }
 
 // StubAuth always (or never) verifies; sponsor and actor are explicit.
